@@ -6,6 +6,7 @@ package frugal
 // workers / processMessages, ack goroutines and the unsubscriber.
 
 import (
+	"encoding/binary"
 	"errors"
 	"fmt"
 	"io"
@@ -67,8 +68,25 @@ func vfPSMake(scn string) (func(), func(*vsched.Exec) (string, *vsched.Violation
 		}
 		pub.Open()
 		cb := func(tr thrift.TTransport) error {
-			b, _ := io.ReadAll(tr)
-			h, pl, err := vfParse(b)
+			// like a generated recv callback, read incrementally and stop at the first error,
+			// leaving the rest of the frame unread
+			var hd [5]byte
+			if _, err := io.ReadFull(tr, hd[:1]); err != nil || hd[0] != 0 {
+				return errors.New("bad version")
+			}
+			if _, err := io.ReadFull(tr, hd[1:5]); err != nil {
+				return errors.New("short header size")
+			}
+			n := int(binary.BigEndian.Uint32(hd[1:5]))
+			if n < 0 || uint64(n) > tr.RemainingBytes() {
+				return errors.New("header block longer than the frame")
+			}
+			hb := make([]byte, n)
+			if _, err := io.ReadFull(tr, hb); err != nil {
+				return errors.New("short header block")
+			}
+			rest, _ := io.ReadAll(tr)
+			h, pl, err := vfParse(append(append(append([]byte{}, hd[:]...), hb...), rest...))
 			if err != nil {
 				return errors.New("bad frame")
 			}
@@ -134,6 +152,12 @@ func vfPSMake(scn string) (func(), func(*vsched.Exec) (string, *vsched.Violation
 					raw("topicA", []byte{0, 0, 0, 5, 0, 0, 0, 0, 9}) // header block longer than the frame
 				case "MV":
 					raw("topicA", []byte{0, 0, 0, 1, 7}) // unsupported version byte
+				case "MVL":
+					// unsupported version byte followed by more bytes the callback never reads
+					raw("topicA", append([]byte{0, 0, 0, 13, 7}, []byte("unread-bytes")...))
+				case "MHL":
+					// header block declared longer than the frame, with bytes left unread
+					raw("topicA", append([]byte{0, 0, 0, 25, 0, 0, 0, 0, 200}, []byte("twenty-bytes-of-rest")...))
 				}
 			}
 			if upos == len(msgs) {
@@ -204,7 +228,7 @@ func vfPSMake(scn string) (func(), func(*vsched.Exec) (string, *vsched.Violation
 			// order: delivered must be a subsequence of the publish order
 			last := -1
 			for _, d := range st.delivered {
-				idx, _ := strconv.Atoi(strings.TrimLeft(d, "VFMH03"))
+				idx, _ := strconv.Atoi(strings.TrimLeft(d, "VFMHL03"))
 				if idx < last {
 					viol("C07/out-of-order", fmt.Sprintf("single-worker subscriber delivered %v out of publish order", st.delivered))
 				}
@@ -225,7 +249,7 @@ func init() {
 		Props: []string{"C07"},
 		Scenarios: func(tier string) []string {
 			var out []string
-			kinds := []string{"V", "F", "M0", "M3", "MH", "MV"}
+			kinds := []string{"V", "F", "M0", "M3", "MH", "MV", "MVL", "MHL"}
 			var seqs []string
 			n := 3
 			var gen func(p []string)
